@@ -9,7 +9,7 @@
    async fusedev path because FuseDevWriter::async_commit lacks the `if !self.buffered` test of
    commit(): after an unbuffered pwrite it re-sends buf[..len], memory the data was never copied to. *)
 From Coq Require Import List String NArith Bool.
-From FB Require Import Lib.Bytes Model.Server Model.ServerCmp.
+From FB Require Import Lib.Bytes Gen.RustAsyncDispatch Model.Server Model.ServerCmp.
 Import ListNotations.
 Local Open Scope string_scope.
 Local Open Scope list_scope.
@@ -25,6 +25,25 @@ Inductive aaction :=
 
 Definition adecision := (list call * aaction)%type.
 Definition ahandler_fn := config -> hdr -> N * N * N -> bytes -> fsres -> N -> adecision.
+
+(* Four yes/no facts about the source that the translator (translator/server_async_dispatch.py ->
+   Gen/RustAsyncDispatch.v) reads off on every run; the model is written over them, so that it keeps
+   following the code when one of the defects they stand for (DESIGN.md section 4, D11, and the async_commit
+   defect) is repaired.  [code_shape] is the code as it is. *)
+Record shape := {
+  sh_gate_capacity : bool;        (* the gate tests `ctx.w.available_bytes() < size_of::<OutHeader>()` *)
+  sh_gate_exempts_forget : bool;  (* the gate returns without a reply for an oversized FORGET / BATCH_FORGET (as the sync gate does) *)
+  sh_write_gate : bool;           (* async_write answers ENOMEM itself when size > MAX_BUFFER_SIZE *)
+  sh_commit_skips : bool          (* FuseDevWriter::async_commit starts with `if !self.buffered { return Ok(0) }` (as commit does) *)
+}.
+Definition code_shape : shape :=
+  {| sh_gate_capacity := rust_async_gate_checks_capacity;
+     sh_gate_exempts_forget := rust_async_gate_exempts_forget;
+     sh_write_gate := negb (rust_async_write_gate_errno =? 0);
+     sh_commit_skips := rust_async_commit_skips_unbuffered |}.
+(* the shape after the three patches of /verif/fixes/C20-*.patch *)
+Definition fixed_shape : shape :=
+  {| sh_gate_capacity := false; sh_gate_exempts_forget := true; sh_write_gate := false; sh_commit_skips := true |}.
 
 (* an arm of the async dispatch that calls the sync handler *)
 Definition fallback (f : handler_fn) : ahandler_fn := fun cfg h ctx r fr wcap =>
@@ -119,14 +138,14 @@ Definition ah_read : ahandler_fn := fun cfg h ctx r fr wcap =>
        | _ => AReplySplit []
        end)).
 
-Definition ah_write : ahandler_fn := fun cfg h ctx r fr wcap =>
+Definition ah_write (sh : shape) : ahandler_fn := fun cfg h ctx r fr wcap =>
   let ino := h_nodeid h in
   let C m a := mk m ctx a in
   awith_obj 40 r (fun s r' =>
     let fuse_flags := u32 20 s in
     let size := u32 16 s in
     (* if size > MAX_BUFFER_SIZE { return ctx.async_reply_error_explicit(ENOMEM) }  -- not in the sync handler *)
-    if MAX_BUFFER_SIZE <? size then ([], AReplyErr ENOMEM None)
+    if sh_write_gate sh && (MAX_BUFFER_SIZE <? size) then ([], AReplyErr ENOMEM None)
     else
       let owner := if land32 fuse_flags 2 then Some (u64 24 s) else None in
       let payload := firstn (N.to_nat (N.min size (blen r'))) r' in
@@ -172,7 +191,7 @@ Definition ah_fallocate : ahandler_fn := fun cfg h ctx r fr wcap =>
 (* the async dispatch table: (opcode, arm awaits an async handler?, handler), one entry per arm of
    `match in_header.opcode` in async_handle_message (INTERRUPT and DESTROY sit in its nested default
    match), listed in the order of [handlers] of Model/Server.v *)
-Definition async_handlers : list (N * bool * ahandler_fn) :=
+Definition async_handlers (sh : shape) : list (N * bool * ahandler_fn) :=
   [(1, true, ah_lookup);
    (2, false, fallback (h_forget 2));
    (3, true, ah_getattr);
@@ -187,7 +206,7 @@ Definition async_handlers : list (N * bool * ahandler_fn) :=
    (13, false, fallback (h_link 13));
    (14, true, ah_open);
    (15, true, ah_read);
-   (16, true, ah_write);
+   (16, true, ah_write sh);
    (17, false, fallback (h_statfs 17));
    (18, false, fallback (h_release 18));
    (20, true, ah_fsync);
@@ -225,18 +244,18 @@ Fixpoint find_ahandler (op : N) (t : list (N * bool * ahandler_fn)) : option aha
   | (o, _, f) :: r => if op =? o then Some f else find_ahandler op r
   end.
 
-Definition async_handler (cfg : config) (h : hdr) (ctx : N * N * N) (r : bytes) (fr : fsres) (wcap : N)
+Definition async_handler (sh : shape) (cfg : config) (h : hdr) (ctx : N * N * N) (r : bytes) (fr : fsres) (wcap : N)
   : adecision :=
-  match find_ahandler (h_opcode h) async_handlers with
+  match find_ahandler (h_opcode h) (async_handlers sh) with
   | Some f => f cfg h ctx r fr wcap
   | None => ([], AReplyErr ENOSYS None)          (* ctx.async_reply_error(ENOSYS) *)
   end.
 
 (* Server::async_handle_message: header, id remap, its own gate, dispatch.
-   The gate: `in_header.len > MAX_BUFFER_SIZE + BUFFER_HEADER_SIZE || ctx.w.available_bytes() < size_of::<OutHeader>()`
+   The gate as it is: `in_header.len > MAX_BUFFER_SIZE + BUFFER_HEADER_SIZE || ctx.w.available_bytes() < size_of::<OutHeader>()`
    -> async_do_reply_error(ENOMEM) for EVERY opcode (the sync gate exempts FORGET / BATCH_FORGET and has no
    capacity test). *)
-Definition async_decide (cfg : config) (req : bytes) (fr : fsres) (wcap : N) : adecision * option N :=
+Definition async_decide (sh : shape) (cfg : config) (req : bytes) (fr : fsres) (wcap : N) : adecision * option N :=
   match read_obj 40 req with
   | None => (([], ASync (NoReply (RErr EDecodeMessage))), None)
   | Some (hb, r) =>
@@ -246,12 +265,16 @@ Definition async_decide (cfg : config) (req : bytes) (fr : fsres) (wcap : N) : a
     | RemapFail => (([rc], ASync (NoReply (RErr EFailedToRemapID))), None)
     | RemapOk du dg =>
       let ctx := ((h_uid h + du) mod 4294967296, (h_gid h + dg) mod 4294967296, h_pid h) in
-      if (MAX_BUFFER_SIZE + BUFFER_HEADER_SIZE <? h_len h) || (wcap <? OUT_HDR) then
+      if MAX_BUFFER_SIZE + BUFFER_HEADER_SIZE <? h_len h then
+        if sh_gate_exempts_forget sh && ((h_opcode h =? 2) || (h_opcode h =? 42))
+        then (([rc], ASync (NoReply (RErr EInvalidMessage))), None)
+        else (([rc], AReplyErr ENOMEM None), None)
+      else if sh_gate_capacity sh && (wcap <? OUT_HDR) then
         (([rc], AReplyErr ENOMEM None), None)
       else if h_opcode h =? 26 then
         let '((cs, a), m) := do_init cfg h r fr in ((rc :: cs, ASync a), m)
       else
-        let '(cs, a) := async_handler cfg h ctx r fr wcap in ((rc :: cs, a), None)
+        let '(cs, a) := async_handler sh cfg h ctx r fr wcap in ((rc :: cs, a), None)
     end
   end.
 
@@ -260,16 +283,18 @@ Definition async_decide (cfg : config) (req : bytes) (fr : fsres) (wcap : N) : a
    match (self.buf.len(), o.len()) { (0,0) => nothing, otherwise one pwrite/writev of buf ++ o }.
    For an unbuffered writer buf[..len] is the caller's buffer as it was ([buf0]): the data went to the
    fd directly and was only accounted (set_len).  VirtioFsWriter::async_commit = commit = nothing. *)
-Definition aw_commit (buf0 : bytes) (w : writer) (other : option writer) : list packet :=
+Definition aw_commit (sh : shape) (buf0 : bytes) (w : writer) (other : option writer) : list packet :=
   match w_kind w with
   | Virtio => []
   | FuseDev =>
-    let o := match other with Some x => w_buf x | None => [] end in
-    let mine := if w_buffered w then w_buf w else firstn (List.length (w_buf w)) buf0 in
-    match w_buf w, o with
-    | [], [] => []
-    | _, _ => [mine ++ o]
-    end
+    if sh_commit_skips sh && negb (w_buffered w) then []
+    else
+      let o := match other with Some x => w_buf x | None => [] end in
+      let mine := if w_buffered w then w_buf w else firstn (List.length (w_buf w)) buf0 in
+      match w_buf w, o with
+      | [], [] => []
+      | _, _ => [mine ++ o]
+      end
   end.
 
 (* async_write / async_write2 / async_write3 / async_write_all of one non-empty chunk: the same space
@@ -278,17 +303,17 @@ Definition aw_commit (buf0 : bytes) (w : writer) (other : option writer) : list 
    So [w_write] of Model/Server.v is the model of these too. *)
 
 (* async_do_reply_error on writer [w]: async_write_all(header) then async_commit(None) *)
-Definition aperform_err (buf0 : bytes) (w : writer) (unique errno : N) (after : option res) : outcome :=
+Definition aperform_err (sh : shape) (buf0 : bytes) (w : writer) (unique errno : N) (after : option res) : outcome :=
   let hb := out_header OUT_HDR (neg32 errno) unique in
   match w_write w hb with
   | WPanic => out_panic
   | WErr => out_ok (match after with Some r => r | None => RErr EEncodeMessage end) [] (w_buf w)
   | WOk (w', p) =>
-    let p2 := aw_commit buf0 w' None in
+    let p2 := aw_commit sh buf0 w' None in
     out_ok (match after with Some r => r | None => ROk (blen (w_buf w')) end) (p ++ p2) (w_buf w')
   end.
 
-Definition async_perform (k : transport) (cap : N) (buf0 : bytes) (unique : N) (a : aaction) : outcome :=
+Definition async_perform (sh : shape) (k : transport) (cap : N) (buf0 : bytes) (unique : N) (a : aaction) : outcome :=
   let w := fresh k cap in
   match a with
   | ASync a' => perform k cap unique a'
@@ -299,7 +324,7 @@ Definition async_perform (k : transport) (cap : N) (buf0 : bytes) (unique : N) (
     | WErr => out_ok (RErr EEncodeMessage) [] []
     | WOk (w', p) => out_ok (ROk (blen (w_buf w'))) p (w_buf w')
     end
-  | AReplyErr errno after => aperform_err buf0 w unique errno after
+  | AReplyErr errno after => aperform_err sh buf0 w unique errno after
   | AReplySplit data =>
     let count := blen data in
     match w_split w OUT_HDR with
@@ -314,22 +339,24 @@ Definition async_perform (k : transport) (cap : N) (buf0 : bytes) (unique : N) (
         | WPanic => out_panic
         | WErr => out_ok (RErr EEncodeMessage) (p2) (w_buf w2')
         | WOk (w1', p1) =>
-          out_ok (ROk len) (p2 ++ p1 ++ aw_commit buf0 w1' (Some w2')) (w_buf w1' ++ w_buf w2')
+          out_ok (ROk len) (p2 ++ p1 ++ aw_commit sh buf0 w1' (Some w2')) (w_buf w1' ++ w_buf w2')
         end
       end
     end
   | AReplySplitErr errno =>
     match w_split w OUT_HDR with
     | None => out_ok (RErr EInvalidHeaderLength) [] []
-    | Some (w1, _) => aperform_err buf0 w1 unique errno None
+    | Some (w1, _) => aperform_err sh buf0 w1 unique errno None
     end
   end.
 
-(* the whole of async_handle_message *)
-Definition async_handle (cfg : config) (k : transport) (cap : N) (buf0 : bytes) (req : bytes) (fr : fsres)
+(* the whole of async_handle_message, over a shape; and for the code as it is *)
+Definition async_handle_gen (sh : shape) (cfg : config) (k : transport) (cap : N) (buf0 : bytes) (req : bytes) (fr : fsres)
   : list call * outcome * option N :=
-  let '((cs, a), m) := async_decide cfg req fr cap in
-  (cs, async_perform k cap buf0 (u64 8 req) a, m).
+  let '((cs, a), m) := async_decide sh cfg req fr cap in
+  (cs, async_perform sh k cap buf0 (u64 8 req) a, m).
+
+Definition async_handle := async_handle_gen code_shape.
 
 (* ------------------------------------------------------------------ what C20 compares *)
 (* filesystem calls with their arguments, the result class, and the reply: the packets that reached
